@@ -70,6 +70,7 @@ type WSpec struct {
 	RunToHow string     `json:"runtohow,omitempty"` // "name" | "regex" | "procs"
 	Direct   string     `json:"direct,omitempty"`   // narrow-seam driver instead of a workflow (direct.go)
 	MkDirs   []string   `json:"mkdirs,omitempty"` // directories created before the run
+	SourceContent map[string]string `json:"source_content,omitempty"` // source files whose content is not their own path
 	Sources  []string   `json:"-"`                  // files created before the run (content = path)
 }
 
@@ -413,6 +414,7 @@ type Ref struct {
 	Ran     map[string]bool     // processes that run (RunTo closure)
 	OrderOK map[string]bool     // "proc.port" has a deterministic emission order
 	DirOuts map[string][]string // output paths that are directories -> the files they hold
+	CompFiles map[string]string // files finalized by a file-writing component (FileSplitter parts): path -> complete content
 }
 
 func expandPattern(pat string, proc string, ins map[string]string, params map[string]string) string {
@@ -454,7 +456,7 @@ func (w *WSpec) reference() *Ref { return w.referencePre(nil) }
 // referencePre: reference evaluation with pre-existing files (path -> content). A task one
 // of whose outputs pre-exists is not executed; pre-existing bytes propagate downstream.
 func (w *WSpec) referencePre(pre map[string]string) *Ref {
-	r := &Ref{ByKey: map[string]*RefTask{}, Files: map[string]string{}, Emit: map[string][]string{}, Ran: map[string]bool{}, OrderOK: map[string]bool{}, DirOuts: map[string][]string{}}
+	r := &Ref{ByKey: map[string]*RefTask{}, Files: map[string]string{}, Emit: map[string][]string{}, Ran: map[string]bool{}, OrderOK: map[string]bool{}, DirOuts: map[string][]string{}, CompFiles: map[string]string{}}
 	if len(w.RunTo) > 0 {
 		r.Ran = w.upstreamClosure(w.RunTo)
 	} else {
@@ -522,6 +524,9 @@ func (w *WSpec) referencePre(pre map[string]string) *Ref {
 				r.OrderOK[p.Name+".out"] = true
 				for _, it := range p.Items {
 					r.Files[it] = it
+					if c, ok := w.SourceContent[it]; ok {
+						r.Files[it] = c
+					}
 				}
 			case "psrc":
 				paramEmit[p.Name+".out"] = append([]string{}, p.Items...)
@@ -535,12 +540,22 @@ func (w *WSpec) referencePre(pre map[string]string) *Ref {
 				r.Emit[p.Name+".out"] = inStream["in"]
 				r.OrderOK[p.Name+".out"] = orderOK
 			case "splitter":
-				// one line per part; the source files hold one line without final newline, so
-				// each input yields part 1 (the line + newline) and an empty part 2
+				// one line per part (+ the trailing part FileSplitter always writes after the last line)
 				for _, in := range inStream["file"] {
-					r.Files[in+".split_1"] = r.Files[in] + "\n"
-					r.Files[in+".split_2"] = ""
-					r.Emit[p.Name+".split_file"] = append(r.Emit[p.Name+".split_file"], in+".split_1", in+".split_2")
+					lines := strings.Split(strings.TrimSuffix(r.Files[in], "\n"), "\n")
+					if r.Files[in] == "" {
+						lines = nil
+					}
+					for k, l := range lines {
+						part := fmt.Sprintf("%s.split_%d", in, k+1)
+						r.Files[part] = l + "\n"
+						r.CompFiles[part] = l + "\n"
+						r.Emit[p.Name+".split_file"] = append(r.Emit[p.Name+".split_file"], part)
+					}
+					last := fmt.Sprintf("%s.split_%d", in, len(lines)+1)
+					r.Files[last] = ""
+					r.CompFiles[last] = ""
+					r.Emit[p.Name+".split_file"] = append(r.Emit[p.Name+".split_file"], last)
 				}
 				r.OrderOK[p.Name+".split_file"] = orderOK
 			case "joiner":
